@@ -22,7 +22,7 @@ ASSUMPTIONS = simnet.ASSUMPTIONS + [
     "for the return value",
 ]
 
-ENDINGS = ("reconnect-then-close", "close0", "close2", "close-reason", "eof", "reset", "proto", "badutf8", "pingtimeout", "refused", "rejected",
+ENDINGS = ("reconnect-then-close", "reply-fails-then-reconnect", "close0", "close2", "close-reason", "eof", "reset", "proto", "badutf8", "pingtimeout", "refused", "rejected",
            "close-in-open", "close-in-message", "close-in-ping", "close-in-data", "kbd-in-message")
 
 
@@ -43,6 +43,14 @@ def _spec_for(ending, ntraffic, tag=""):
         # first connection is lost, the app reconnects (reconnect=2) with a ping thread per connection, the second one is closed by the server
         script.append((1, "EOF"))
         rf = dict(reconnect=2, ping_interval=10, ping_timeout=3)
+        exp_err = True
+        spec["next"] = {"script": [(1, server_frame(1, 2, b"n")), (1, close_frame())]}
+    elif ending == "reply-fails-then-reconnect":
+        # the server closes; the client's automatic close reply cannot be written (send timeout); with reconnect set the app connects
+        # again; the second connection is closed by the server.  Every transport created must be closed when run_forever returns.
+        script.append((1, close_frame()))
+        spec["send_fault"] = {0: "timeout"}
+        rf = dict(reconnect=2)
         exp_err = True
         spec["next"] = {"script": [(1, server_frame(1, 2, b"n")), (1, close_frame())]}
     elif ending == "close0":
@@ -243,13 +251,13 @@ def obligations(tier):
         for n in ((0, 1, 2, 3) if thorough else (0, 1, 2)):
             ends.append(dict(ending=e, ntraffic=n))
         ends.append(dict(ending=e, ntraffic=1, tls=True))
-        if e not in ("pingtimeout", "reconnect-then-close"):
+        if e not in ("pingtimeout", "reconnect-then-close", "reply-fails-then-reconnect"):
             ends.append(dict(ending=e, ntraffic=2, ping=True))
             if thorough:
                 ends.append(dict(ending=e, ntraffic=3, ping=True, tls=True))
     if thorough:
-        seconds = [dict(ending=e, ntraffic=n, second=s) for e in ENDINGS if e not in ("kbd-in-message", "reconnect-then-close") for n in (0, 1)
-                   for s in ENDINGS if s not in ("kbd-in-message", "reconnect-then-close")]
+        seconds = [dict(ending=e, ntraffic=n, second=s) for e in ENDINGS if e not in ("kbd-in-message", "reconnect-then-close", "reply-fails-then-reconnect") for n in (0, 1)
+                   for s in ENDINGS if s not in ("kbd-in-message", "reconnect-then-close", "reply-fails-then-reconnect")]
     else:
         seconds = [dict(ending=e, ntraffic=0, second=s) for e in ("close0", "eof", "proto", "refused", "close-in-message", "pingtimeout", "rejected")
                    for s in ("close0", "eof", "close2") if s != "close2" or e in ("eof", "close0")]
